@@ -231,7 +231,7 @@ def children(t):
     if isinstance(t, SymStr):
         return [p for p in t.parts if not isinstance(p, str)]
     if isinstance(t, Rec):
-        return list(t.args)
+        return []        # the arguments of a summarised recursive call are its inputs, not part of the output
     return []
 
 
